@@ -16,6 +16,7 @@ mod c10;
 mod c11;
 mod c12;
 mod c13;
+mod c13b;
 mod c14;
 mod c15;
 mod c16;
